@@ -41,11 +41,10 @@ static inline unsigned long d_bits(double a) { union { double d; unsigned long u
 #define D_EQ(a, b) ((a) == (b))
 #define D_NE(a, b) ((a) != (b))
 #else
-/* VERIF_FP_UF: operations on doubles are uninterpreted functions of the operands' bit patterns, made
- * to satisfy the sign laws that IEEE-754 arithmetic satisfies exactly:
- *   a*b = sign(a)^sign(b) . uf(|a|,|b|)  (commutative),   a/b likewise,   -a = sign flip (native),
- *   a+b commutative, (-a)+(-b) = -(a+b),   a-b = a+(-b),   a > b is b < a,  a >= b is b <= a.
- * No associativity / distributivity (not exact in IEEE either). */
+/* VERIF_FP_UF: '*', '/', '+' on doubles are uninterpreted functions of the operands' bit patterns
+ * (congruence only: NO commutativity, associativity or distributivity -- measured: ordering the operands
+ * for commutativity makes CBMC's Ackermann expansion 10-100x slower).  Exact IEEE laws that are free:
+ * -a is a sign flip, a-b = a+(-b), a > b is b < a, a >= b is b <= a, |a| clears the sign. */
 double __CPROVER_uninterpreted_dmul(double, double);
 double __CPROVER_uninterpreted_ddiv(double, double);
 double __CPROVER_uninterpreted_dadd(double, double);
@@ -54,31 +53,10 @@ _Bool __CPROVER_uninterpreted_dle(double, double);
 _Bool __CPROVER_uninterpreted_deq(double, double);
 static inline double d_frombits(unsigned long u) { union { double d; unsigned long u; } x; x.u = u; return x.d; }
 #define D_SIGN 0x8000000000000000UL
-static inline double d_mul(double a, double b)
-{
-  unsigned long ua = d_bits(a), ub = d_bits(b);
-  unsigned long ma = ua & ~D_SIGN, mb = ub & ~D_SIGN;
-  double r = ma <= mb ? __CPROVER_uninterpreted_dmul(d_frombits(ma), d_frombits(mb)) : __CPROVER_uninterpreted_dmul(d_frombits(mb), d_frombits(ma));
-  return ((ua ^ ub) & D_SIGN) ? d_frombits(d_bits(r) ^ D_SIGN) : r;
-}
-static inline double d_div(double a, double b)
-{
-  unsigned long ua = d_bits(a), ub = d_bits(b);
-  double r = __CPROVER_uninterpreted_ddiv(d_frombits(ua & ~D_SIGN), d_frombits(ub & ~D_SIGN));
-  return ((ua ^ ub) & D_SIGN) ? d_frombits(d_bits(r) ^ D_SIGN) : r;
-}
-static inline double d_add(double a, double b)
-{
-  unsigned long ua = d_bits(a), ub = d_bits(b);
-  unsigned long ma = ua & ~D_SIGN, mb = ub & ~D_SIGN;
-  /* s: sign of the operand of larger magnitude (equal magnitudes: the common sign, else +) */
-  unsigned long s = ma > mb ? (ua & D_SIGN) : (mb > ma ? (ub & D_SIGN) : (ua & ub & D_SIGN));
-  unsigned long xa = ua ^ s, xb = ub ^ s;          /* both negated iff s */
-  double r = xa <= xb ? __CPROVER_uninterpreted_dadd(d_frombits(xa), d_frombits(xb)) : __CPROVER_uninterpreted_dadd(d_frombits(xb), d_frombits(xa));
-  return s ? d_frombits(d_bits(r) ^ D_SIGN) : r;
-}
-static inline _Bool d_eq(double a, double b)
-{ return d_bits(a) <= d_bits(b) ? __CPROVER_uninterpreted_deq(a, b) : __CPROVER_uninterpreted_deq(b, a); }
+#define d_mul(a, b) __CPROVER_uninterpreted_dmul((a), (b))
+#define d_div(a, b) __CPROVER_uninterpreted_ddiv((a), (b))
+#define d_add(a, b) __CPROVER_uninterpreted_dadd((a), (b))
+#define d_eq(a, b) __CPROVER_uninterpreted_deq((a), (b))
 #define D_MUL(a, b) d_mul((a), (b))
 #define D_DIV(a, b) d_div((a), (b))
 #define D_ADD(a, b) d_add((a), (b))
